@@ -63,6 +63,12 @@ CHECKS.update({
    text="Seeded histories interleaving CREATE TABLE, CREATE UNIQUE INDEX and DROP TABLE with DML on the same and other tables, in autocommit, in committed and in rolled-back transactions, with reuse of dropped names and reopen; every later statement must resolve names exactly as the model's versioned catalog does and other tables stay unchanged. ALTER TABLE is covered only by the reproducers of open findings D16/D17."),
 })
 
+CHECKS.update({
+ "C16": dict(engine="E1-sqlsim", level="exploration", ref="4 (C16), 2.3 (E1)",
+   technique="deterministic simulation: hostile SQL text (random bytes, token soups, truncated / spliced / duplicated valid statements, nesting ramps, ill-typed and exotic well-formed statements) injected at arbitrary points of arbitrary sessions of seeded histories; oracles: call returns, no engine thread panicked, state equals the reference model afterwards",
+   text="Seeded histories into which hostile statements are injected at any point of any session or in autocommit; every call must return (a hung or dead worker process is attributed to its seed by the supervisor), no engine thread may panic (panic hook checked after every call), and the session and database must afterwards hold exactly what the reference model holds. The input half of the property is input generation; the simulation content is the liveness / conservation half."),
+})
+
 NOT_APPLICABLE = {
  "C05": "pure function of (table contents, query text): no schedule, crash point, clock or interleaving enters it; needs differential/property-based testing, not simulation",
  "C18": "pure function of (stored bytes, schema, snapshot, horizon); the property asks for bounded exhaustive enumeration of a codec, not simulation",
